@@ -5,8 +5,9 @@ src, sid = sys.argv[1], sys.argv[2]
 dst = os.path.join('/verif/seeded', sid)
 os.makedirs(dst, exist_ok=True)
 for f in os.listdir(src):
-    if os.path.isfile(os.path.join(src, f)) and not f.endswith(('.o',)) and os.path.getsize(os.path.join(src, f)) < 200000 and not os.access(os.path.join(src, f), os.X_OK) or f.endswith('.sh'):
-        shutil.copy(os.path.join(src, f), dst)
+    p = os.path.join(src, f)
+    if os.path.isfile(p) and f.endswith(('.c', '.h', '.sh', '.diff', '.json', '.cpp', '.txt')):
+        shutil.copy(p, dst)
 m = json.load(open(os.path.join(dst, 'meta.json')))
 m['id'] = sid
 m['confirmed'] = dict(by='tools/confirm_seed.sh in a scratch worktree of /repo HEAD',
